@@ -183,23 +183,41 @@ def run(facts, rep, ctx):
                 for bb, t in cb.calls():
                     if (callee_names(t)[1] or "") == "std::path::Path::is_dir":
                         isdir = True
+        # every string constant with a glob star that can reach the pattern: template pieces, placeholder fills, plain operands
+        stars = set()
+        for pp in patt:
+            if pp[0] == "default":
+                stars.add(pp[1])
+                continue
+            for piece in pp[0]:
+                if isinstance(piece, str) and "*" in piece:
+                    stars.add(piece.lstrip("/\\"))
+        for bi, si, s_ in b.stmts():
+            if s_["k"] == "assign" and s_["rv"]["k"] == "use" and "k" in s_["rv"]["a"]:
+                v = s_["rv"]["a"]["k"].get("val") or {}
+                if v.get("kind") == "str" and "*" in v["v"]:
+                    stars.add(v["v"].lstrip("/\\"))
+        for bb, t in b.calls():
+            for a in t["args"]:
+                ta = b.term_of_operand(a)
+                for x in walk(ta):
+                    if x[0] == "const" and isinstance(x[1], str) and "*" in x[1]:
+                        stars.add(x[1].lstrip("/\\"))
+            if (callee_names(t)[1] or "") == "std::path::Path::is_dir":
+                isdir = True
         if name == "subdirectories":
-            lit = [pp for pp in patt if pp[0] != "default"]
-            ok5 = len(lit) == 1 and lit[0][0] == (None, "*") and isdir
-            if ok5:
+            if stars == {"*"} and isdir:
                 rep.ok(R5, {"fn": b.name, "pattern": "<dir>/*", "filter": "is_dir"})
+            elif stars - {"*"}:
+                rep.violation(R5, b.name, "pattern", "sub-directory listing globs with %s (specified: <dir>/* one level, directories only)" % sorted(stars), "%s:%s" % (b.file, b.line))
+            elif stars == {"*"} and not isdir:
+                rep.violation(R5, b.name, "pattern", "sub-directory listing never tests is_dir: files would be reported as directories", "%s:%s" % (b.file, b.line))
             else:
-                rep.violation(R5, b.name, "pattern", "sub-directory listing uses template %s, is_dir filter: %s (specified: <dir>* one level, directories only)" % (sorted(map(str, lit)), isdir), "%s:%s" % (b.file, b.line))
+                rep.inconc(R5, "sub-directory listing: glob pattern not recognised")
         else:
-            has_default = ("default", "**/*") in patt
-            # the default must be used only when the caller gave no pattern: a phi of Some(p)=>p, None=>"**/*"
-            consts = set()
-            for bi, si, s in b.stmts():
-                if s["k"] == "assign" and s["rv"]["k"] == "use" and "k" in s["rv"]["a"]:
-                    v = s["rv"]["a"]["k"].get("val") or {}
-                    if v.get("kind") == "str":
-                        consts.add(v["v"])
-            if "**/*" in consts:
+            if "**/*" in stars:
                 rep.ok(R5, {"fn": b.name, "default_pattern": "**/*"})
+            elif stars:
+                rep.violation(R5, b.name, "default-pattern", "default listing pattern is %s, specified **/*" % sorted(stars), "%s:%s" % (b.file, b.line))
             else:
-                rep.violation(R5, b.name, "default-pattern", "default listing pattern is %s, specified **/*" % sorted(consts), "%s:%s" % (b.file, b.line))
+                rep.inconc(R5, "list: default glob pattern not recognised")
